@@ -65,6 +65,16 @@ Theorem C16_visibility : forall d s order ups st c,
     (exists a, ancestor d a s /\ cget k (outputs_of d a) <> None).
 Proof. exact visibility. Qed.
 
+(* "... and of no other stage", at the level of values: the planned context is a function of the
+   stage's own row and its ancestors' rows.  Change any other stage in any way (outputs, context,
+   reducers, even its requisites): the ancestors stay the same and so does what the stage sees. *)
+Theorem C16_noninterference : forall d1 d2 s order ups,
+  lookup d1 s = lookup d2 s -> (forall a, ancestor d1 a s -> lookup d1 a = lookup d2 a) ->
+  iteration_orders d1 s order ups ->
+  (forall a, ancestor d1 a s <-> ancestor d2 a s) /\
+  plan_context d1 s order ups = plan_context d2 s order ups.
+Proof. exact plan_noninterference. Qed.
+
 (* ---------------------------------------------------------------------------------------------- *)
 (* C16_precedence, own value: a non-list value set on the stage itself wins. *)
 Theorem C16_precedence_own : forall d s order ups st c k a,
@@ -231,6 +241,16 @@ Proof.
   eexists. split; [vm_compute; reflexivity|]. repeat split.
 Qed.
 
+(* non-vacuity of C16_noninterference: giving the unrelated stage z other outputs, a context and a
+   requisite meets its premises *)
+Definition ex_dag_z : dag :=
+  firstn 4 (ex_dag []) ++ [mkStage 4 [3%nat] [(5%nat, I 99); (0%nat, I 99)] [(1%nat, I 99)] [(0%nat, RSum)]].
+Example C16_noninterference_nonvacuous :
+  lookup (ex_dag []) 3 = lookup ex_dag_z 3 /\
+  (forall a, In a [0; 1; 2]%nat -> lookup (ex_dag []) a = lookup ex_dag_z a) /\
+  lookup (ex_dag []) 4 <> lookup ex_dag_z 4.
+Proof. split; [reflexivity|]. split; [|discriminate]. intros a [<-|[<-|[<-|[]]]]; reflexivity. Qed.
+
 (* ---------------------------------------------------------------------------------------------- *)
 (* REFUTED on the unchanged tree: "... as produced in the current loop iteration".
    A jump re-arms a stage with reset_stage_for_retry, which clears `outputs` but keeps `context`; the
@@ -288,6 +308,7 @@ Print Assumptions C16_kahn_result.
 Print Assumptions C16_kahn_topological.
 Print Assumptions C16_fuel_suffices.
 Print Assumptions C16_visibility.
+Print Assumptions C16_noninterference.
 Print Assumptions C16_precedence_own.
 Print Assumptions C16_precedence.
 Print Assumptions C16_path_ordered.
